@@ -97,6 +97,16 @@ def check(run):
         one_case(run, specs, "momentum", T)
         one_case(run, specs, "angmom", T)
         run.count("transform " + lab)
+    # two shells on exactly the same centre whose angular momenta differ by two (Cartesian f / g shells contain p- / d-type parts, so
+    # the blocks do not vanish), Cartesian, pure and mixed
+    for k, (la, lb) in enumerate([(1, 3), (2, 4), (3, 1)] if run.tier == "quick" else [(1, 3), (2, 4), (3, 1), (4, 2), (0, 2), (2, 0)]):
+        c0 = [core.snap(rng.uniform(-1, 1), 8) for _ in range(3)]
+        for ta, tb in ((False, False),) if run.tier == "quick" else ((False, False), (True, False), (False, True)):
+            sa = rand_shell(rng, la, [], nprim=2, nseg=1, sph=ta, exp_hi=5.0).copy(center=c0, via_update=False)
+            sb = rand_shell(rng, lb, [], nprim=2, nseg=1, sph=tb, exp_hi=5.0).copy(center=c0, via_update=False)
+            one_case(run, [sa, sb], "angmom")
+            one_case(run, [sa, sb], "momentum")
+        run.count("same centre, angular momenta differing by two")
     from checks.common import structural_families
     for n_, (lab, sp_, T) in enumerate(structural_families(run)):
         one_case(run, sp_, "angmom" if n_ % 2 else "momentum", T)
